@@ -167,6 +167,7 @@ func c09Case(w *rt.W, text string, r date.Rule, allPaths bool) int {
 }
 
 func runC09(c *rt.Ctx) {
+	soloRun(c, "date")
 	callerEditsReturnedErrors(c, map[string]func() error{
 		"date.DefaultParser[string](20200101, RuleDisableBasic)": func() error { _, err := date.DefaultParser("20200101", date.RuleDisableBasic); return err },
 		"date.DefaultParser[[]byte](20200101, RuleDisableBasic)": func() error { _, err := date.DefaultParser([]byte("20200101"), date.RuleDisableBasic); return err },
